@@ -238,7 +238,7 @@ def run(R):
     regen_and_tie_flags(R)       # the flag methods of the current source, translated, equal Model.always / Model.partial
     rnd = random.Random(R.seed)
     quick = R.tier == 'quick'
-    tables = gen_tables(rnd, 90 if quick else 1500)
+    tables = gen_tables(rnd, 90 if quick else 700)
     fixed = [[('prefix', ['-']), ('infix', ['-'])], [('left', ['+'])], [('prefix', ['+', '-']), ('right', ['*']), ('postfix', ['!']), ('left', ['+', '-'])],
              [('postfix', ['!']), ('prefix', ['-']), ('left', ['-']), ('infix', ['!'])], [('prefix', ['-']), ('infix', ['-']), ('postfix', ['-'])]]
     tables = fixed + tables
